@@ -63,6 +63,11 @@ CHECKS.update({
          "Same binding with subscribe / unsubscribe / unsubscribe-all / publish operations on two event types inside turns, subscribers failing, restarting and terminating in between; StreamMon checks delivery exactly once to exactly the subscribers at publication time, type isolation, publisher order, nothing to unsubscribed or terminated actors, and that the stream's forward and reverse tables equal the monitor's subscription set at every quiescent point (no entry after termination, restart keeps).",
          "One turn (HandleEnvelop) is atomic w.r.t. other actors (C01); root and observer ungated; scripted behaviours/decision makers are the only user code; name re-use is outside the TLC model; exhaustiveness holds for the model, the code is bound by the replayed and sampled schedules.",
          "§5 ActorSys / C19"),
+ "C04": ("model_checking",
+         "TLA+ spec of one Ask (Future.close / PipeTo / Result and the registration in Context.ask) at hook granularity, TLC: all interleavings of repliers, timer, asker death, PipeTo and Result callers (safety + termination); TLC behaviours replayed on a real Ask through hooks in future.go/context.go; traces validated by TLC against AskMon",
+         "Every interleaving of three completer threads, one or two PipeTo callers and one or two Result callers with the three steps of ask() is explored by TLC for: single completion, every waiter/forwarder sees that completion's value exactly once, no registration left, everybody terminates. Simulated behaviours and random thread sets (time-outs 0.1-20 ms) are replayed on a real future created by the real Context.ask with a real timer and real forwarder actors; AskMon judges values, exactly-once forwarding, own-reply-only, time-out not early, waiters released and registry emptiness.",
+         "Critical sections under Future.mu and futureLock are atomic; real timer (one-sided time check); one Ask per scenario (several concurrent Asks of one asker are exercised only through the random C10 stress).",
+         "§5 C04"),
 })
 
 NOT_YET = {
